@@ -547,18 +547,20 @@ def sched_enc_prog(instrs):
     return out
 
 # what each property's schedules are made of (weights of the ten label kinds)
-# guided schedules of the 'cow' and 'unique' profiles also start make_mut (kind 10) and get_mut (kind 11)
+# guided schedules also start make_mut (kind 10), get_mut (kind 11) and try_unwrap (kind 12)
 SCHED_PROFILES = {
     'cow':    [[2, 4, 4, 3, 0, 4, 3, 2, 0, 17, 6, 1], [5, 4, 3, 2, 0, 8, 3, 1, 0, 14, 5, 2], [2, 3, 3, 2, 1, 4, 2, 3, 2, 16, 4, 1]],
     'drops':  [[3, 5, 0, 0, 0, 5, 5, 0, 0, 18], [6, 4, 0, 0, 0, 8, 4, 0, 0, 14]],
     'unique': [[2, 4, 4, 3, 2, 4, 3, 4, 0, 16, 2, 3], [5, 4, 3, 2, 1, 8, 3, 3, 0, 14, 1, 3]],
-    'unwrap': [[2, 4, 1, 1, 4, 4, 3, 2, 6, 18], [5, 3, 1, 1, 3, 8, 3, 2, 5, 14], [2, 3, 3, 2, 4, 4, 2, 5, 3, 16]],
+    'unwrap': [[2, 4, 1, 1, 4, 4, 3, 2, 5, 18, 0, 0, 4], [5, 3, 1, 1, 3, 8, 3, 2, 4, 14, 0, 0, 4], [2, 3, 3, 2, 4, 4, 2, 4, 3, 16, 0, 1, 3]],
 }
-# free schedules also use make_mut (10), get_mut (11), try_unwrap (12), is_unique (13)
-SCHED_FREE_EXTRA = {'drops': [0, 0, 0, 1], 'unique': [2, 2], 'unwrap': [2, 1, 5, 1], 'cow': [1, 1]}
+# free schedules (no model in the loop) use more of make_mut (10), get_mut (11), try_unwrap (12), and is_unique (13), which
+# the machine has no label for; added to the weights above
+SCHED_FREE_EXTRA = {'drops': [0] * 13 + [1], 'unique': [0] * 10 + [2, 1, 2, 2], 'unwrap': [0] * 10 + [2, 1, 1, 1], 'cow': [0] * 12 + [1, 1]}
 def sched_gen(rng, profile, n, length, free=False):
     W = rng.choice(SCHED_PROFILES[profile])
-    if free: W = W + SCHED_FREE_EXTRA[profile]
+    W = W + [0] * (14 - len(W))
+    if free: W = [a + b for a, b in zip(W, SCHED_FREE_EXTRA[profile])]
     labels = []
     for _ in range(length):
         t = rng.randrange(n); k = rng.choices(range(len(W)), weights=W)[0]
@@ -1018,6 +1020,14 @@ def oracle_ptr(ops, io, ctx):
         if o[3] != 0 or o[5] != 1 or o[6:8] != [8, 8] or o[8] != 1: return 'ThinArc raw round trip / width / release failed: %s' % o
         if o[1] != o[4]: return 'ThinArc::as_ptr and into_raw differ'
         if o[1] != o[2]: return 'F3-class: ThinArc::as_ptr/into_raw yield offset %d but the value (what Deref yields) lives at offset %d' % (o[1], o[2])
+    if f == 6 and len(o) >= 11:
+        if o[1] != o[2]: return 'arc-swap glue of Arc<T>: RefCnt::as_ptr (offset %d) and into_ptr (offset %d) differ' % (o[1], o[2])
+        if o[1] < 8 or o[1] % (2 ** tk) != 0: return 'arc-swap glue of Arc<T>: the raw form is offset %d, not the value address (what Arc::as_ptr / into_raw give and from_raw takes)' % o[1]
+        if o[3] != 1: return 'arc-swap glue of Arc<T>: from_ptr(into_ptr(a)) does not recover the same allocation and count'
+        if o[4] != o[5]: return 'arc-swap glue of ThinArc: RefCnt::as_ptr (offset %d) and into_ptr (offset %d) differ, so arc-swap cannot recognise its own debts' % (o[4], o[5])
+        if o[6] != 1: return 'arc-swap glue of ThinArc: from_ptr(into_ptr(t)) does not recover the same allocation and count'
+        if o[7:9] != [2, 1]: return 'a value held by an ArcSwapAny<Arc<T>> and one more handle: the count is %d after load guards / load_full came and went (2 expected; 0 as second number = stopped there), %d once the ArcSwapAny is gone (1 expected)' % (o[7], o[8])
+        if o[9:11] != [2, 1]: return 'a value held by an ArcSwapAny<ThinArc> and one more handle: the count is %d after load guards / load_full came and went (2 expected; 0 as second number = stopped there), %d once the ArcSwapAny is gone (1 expected): a guard released a count it never owned' % (o[9], o[10])
     if f in (4, 5):
         exp = [1, 0, 1, 0] if f == 4 else [0, 1, 0, 1]
         if o[1:5] != exp: return 'ArcUnion built by %s reports %s through is_first/is_second/as_first/as_second' % ('from_first' if f == 4 else 'from_second', o[1:5])
@@ -1040,7 +1050,7 @@ def known_ptr(ops, io, mo, ctx):
 PTR_STREAM = dict(stream='ptr', gen=gen_ptr, oracle=oracle_ptr, known=known_ptr,
                   nontrivial=lambda ops, io: ops[0][2] != 0 or SHAPES[ops[0][1] % len(SHAPES)][1] > 3 or SHAPES[ops[0][1] % len(SHAPES)][0] % 8 != 0,
                   rule='exhaustive over the matrix: 16 payload shapes x 8 header/second-type shapes x 7 forms (sized Arc with OffsetArc/ArcBorrow forms; slice; trait object; ThinArc; ArcUnion first / second; arc-swap glue) x slice lengths; observation = offsets relative to the allocator block, round-trip verdicts, handle and Option sizes, release layout; non-trivial = not a word-shaped sized payload; distinct = distinct case tuples',
-                  cfgs=dict(quick=[('cfg_default', 'debug'), ('cfg_default', 'release')],
+                  cfgs=dict(quick=[('cfg_default', 'debug'), ('cfg_default', 'release'), ('cfg_all', 'debug')],
                             thorough=[('cfg_default', 'debug'), ('cfg_default', 'release'), ('cfg_nostd', 'release'), ('cfg_all', 'debug'), ('cfg_all', 'release')]))
 
 def c11_side(facts):
@@ -1754,7 +1764,9 @@ def gen_dpanic(tier, rng):
     for j in range(0, 4): cases.append(('D%d' % n, [[44 + j, 0, 0]])); n += 1
     # zero-sized headers / payloads with drop glue through the constructors
     for j in range(0, 22): cases.append(('D%d' % n, [[48 + j, 0, 0]])); n += 1
-    for op in ([29, 1, 0], [20, 40, 0], [45, 1, 1], [40, 1, 0], [75, 0, 0], [48, 1, 0], [70, 0, 0], [67, 0, 1]): cases.append(('D%d' % n, [op])); n += 1
+    # counts read inside the payload's comparison / hash / format, per handle kind
+    for j in range(0, 6): cases.append(('D%d' % n, [[70 + j, 0, 0]])); n += 1
+    for op in ([29, 1, 0], [20, 40, 0], [45, 1, 1], [40, 1, 0], [79, 0, 0], [48, 1, 0], [76, 0, 0], [67, 0, 1], [70, 1, 0]): cases.append(('D%d' % n, [op])); n += 1
     return cases
 
 def oracle_dpanic(ops, io, ctx):
@@ -1764,6 +1776,15 @@ def oracle_dpanic(ops, io, ctx):
     parts = ct_split(o)
     if len(parts) != 3: return 'malformed observation'
     d = parts[1]
+    if 70 <= op[0] < 76:
+        what = ['Arc<T>', 'OffsetArc<T>', 'ArcBorrow<T>', 'ThinArc<H,T>', 'ArcUnion<A,B>', 'Arc<HeaderSlice<H,[T]>>'][op[0] - 70]
+        if len(parts[2]) < 5: return 'malformed observation'
+        consulted, before, lo, hi, after = parts[2][:5]
+        if o[0] != 0: return 'comparing / hashing / formatting two %s handles panicked' % what
+        if consulted != 1: return 'comparing / hashing / formatting two %s handles (distinct allocations) never consulted the values' % what
+        if before != 2 or after != 2: return '%s: two owning handles per value, but the count reads %d before and %d after the comparisons' % (what, before, after)
+        if lo != 2 or hi != 2: return '%s: the count read through another handle WHILE a comparison, hash or format of the handle is in use is %d..%d, but 2 owning handles refer to the value' % (what, lo, hi)
+        return None
     if 67 <= op[0] < 70:
         what = 'Arc::into_thin on zero-sized elements behind a recorded length that is not the real one (%s)' % ['recorded 5, real 2', 'recorded 0, real 3', 'thin, fat again, relabelled 7 through get_mut, real 2'][op[0] - 67]
         if len(parts[2]) < 5: return 'malformed observation'
@@ -1897,6 +1918,9 @@ PROPS['C08']['streams'] = PROPS['C08']['streams'] + [SCHED_STREAM('cow')]
 PROPS['C09']['streams'] = PROPS['C09']['streams'] + [SCHED_STREAM('unwrap')]
 PROPS['C08']['streams'] = PROPS['C08']['streams'] + [DPANIC_STREAM]
 PROPS['C10']['streams'] = PROPS['C10']['streams'] + [DPANIC_STREAM]
+PROPS['C04']['streams'] = PROPS['C04']['streams'] + [DPANIC_STREAM]
+# C05 also for the blocks the serde impls request and (when the payload's deserialiser refuses) give back
+PROPS['C05']['streams'] = PROPS['C05']['streams'] + [SERDE_STREAM]
 PROPS['C01']['assumptions'] = PROPS['C01']['assumptions'] + ['a panicking payload destructor: Rust drop glue destroys the remaining fields and elements while unwinding and Box frees its memory on the unwind path (Ctor.run_dpanic; validated by the destructor-panic cases)']
 
 # C10 also holds for every header/element shape: the thin forms of the ptr stream and the layout stream (thin constructors)
